@@ -32,6 +32,8 @@ type ProgGen struct {
 	// IterVars names context variables that are iterable; in non-hostile mode loops
 	// run over these, array literals or ranges (so that programs get past their loops).
 	IterVars []string
+	// Prefix is put in front of every template name (several programs in one loader).
+	Prefix string
 
 	seq    int
 	locals []string
@@ -492,7 +494,7 @@ func (g *ProgGen) node(depth int, aux []string, inBlock bool) Node {
 			return g.text()
 		}
 		n := &NEmbed{Tpl: &EStr{S: g.pickS(aux)}, ID: g.id("E")}
-		embedHasBlocks := n.Tpl.(*EStr).S == "layout"
+		embedHasBlocks := n.Tpl.(*EStr).S == g.Prefix+"layout"
 		if r.Intn(3) == 0 {
 			n.With = &EHash{Keys: []Expr{&EName{Name: "w"}}, Vals: []Expr{g.Expr(1)}}
 		}
@@ -533,7 +535,7 @@ func (g *ProgGen) node(depth int, aux []string, inBlock bool) Node {
 			alias := g.id("m")
 			g.locals = append(g.locals, alias)
 			if !g.Hostile {
-				return &NImport{Tpl: &EStr{S: "macros"}, Alias: alias, ID: g.id("M")}
+				return &NImport{Tpl: &EStr{S: g.Prefix + "macros"}, Alias: alias, ID: g.id("M")}
 			}
 			return &NImport{Tpl: &EStr{S: g.pickS(aux)}, Alias: alias, ID: g.id("M")}
 		}
@@ -546,7 +548,7 @@ func (g *ProgGen) node(depth int, aux []string, inBlock bool) Node {
 			al = g.id("f")
 		}
 		if !g.Hostile {
-			return &NFrom{Tpl: &EStr{S: "macros"}, Names: [][2]string{{nm, al}}, ID: g.id("M")}
+			return &NFrom{Tpl: &EStr{S: g.Prefix + "macros"}, Names: [][2]string{{nm, al}}, ID: g.id("M")}
 		}
 		return &NFrom{Tpl: &EStr{S: g.pickS(aux)}, Names: [][2]string{{nm, al}}, ID: g.id("M")}
 	default:
@@ -602,7 +604,7 @@ func (g *ProgGen) Program() (map[string]*Template, string) {
 			body = append(body, &NMacro{Name: name, Params: params, Body: mb, ID: g.id("M")})
 			g.macros = append(g.macros, name) // later macros may call earlier ones only
 		}
-		ts["macros"] = &Template{Name: "macros", Body: body}
+		ts[g.Prefix+"macros"] = &Template{Name: g.Prefix + "macros", Body: body}
 	}
 	// block library (for use)
 	{
@@ -614,26 +616,26 @@ func (g *ProgGen) Program() (map[string]*Template, string) {
 		for _, bn := range []string{"b1", "u0"} {
 			body = append(body, g.namedBlock(bn, func() []Node { return g.Nodes(1, 1+r.Intn(2), nil, true) }))
 		}
-		ts["blocks"] = &Template{Name: "blocks", Body: body}
+		ts[g.Prefix+"blocks"] = &Template{Name: g.Prefix + "blocks", Body: body}
 	}
 	// partials: p2 may be used by p1 (acyclic)
 	{
 		g.resetTemplate()
-		ts["part2"] = &Template{Name: "part2", Body: g.Nodes(2, 1+r.Intn(4), []string{"macros"}, false)}
+		ts[g.Prefix+"part2"] = &Template{Name: g.Prefix + "part2", Body: g.Nodes(2, 1+r.Intn(4), []string{g.Prefix + "macros"}, false)}
 		g.resetTemplate()
-		ts["part1"] = &Template{Name: "part1", Body: g.Nodes(2, 1+r.Intn(4), []string{"part2", "macros"}, false)}
+		ts[g.Prefix+"part1"] = &Template{Name: g.Prefix + "part1", Body: g.Nodes(2, 1+r.Intn(4), []string{g.Prefix + "part2", g.Prefix + "macros"}, false)}
 		// an embeddable layout with blocks, itself possibly extending base0
 		g.resetTemplate()
 		var lay []Node
 		if r.Intn(3) == 0 {
-			lay = append(lay, &NExtends{Tpl: &EStr{S: "base0"}, ID: g.id("X")})
+			lay = append(lay, &NExtends{Tpl: &EStr{S: g.Prefix + "base0"}, ID: g.id("X")})
 		}
 		for _, bn := range []string{"b0", "b1"} {
-			lay = append(lay, g.text(), g.namedBlock(bn, func() []Node { return g.Nodes(1, 1+r.Intn(2), []string{"part2"}, true) }))
+			lay = append(lay, g.text(), g.namedBlock(bn, func() []Node { return g.Nodes(1, 1+r.Intn(2), []string{g.Prefix + "part2"}, true) }))
 		}
-		ts["layout"] = &Template{Name: "layout", Body: lay}
+		ts[g.Prefix+"layout"] = &Template{Name: g.Prefix + "layout", Body: lay}
 	}
-	aux := []string{"part1", "part2", "layout", "macros"}
+	aux := []string{g.Prefix + "part1", g.Prefix + "part2", g.Prefix + "layout", g.Prefix + "macros"}
 	// inheritance chain base0 <- base1 <- base2 <- main
 	levels := r.Intn(4) // number of ancestors
 	{
@@ -642,7 +644,7 @@ func (g *ProgGen) Program() (map[string]*Template, string) {
 		body = append(body, g.text())
 		for _, bn := range []string{"b0", "b1", "b2"} {
 			blk := g.namedBlock(bn, func() []Node {
-				inner := g.Nodes(2, 1+r.Intn(2), []string{"part2"}, true)
+				inner := g.Nodes(2, 1+r.Intn(2), []string{g.Prefix + "part2"}, true)
 				if bn == "b1" && r.Intn(2) == 0 {
 					inner = append(inner, g.namedBlock("b3", func() []Node { return g.Nodes(1, 1, nil, true) }))
 				}
@@ -655,11 +657,11 @@ func (g *ProgGen) Program() (map[string]*Template, string) {
 			}
 			body = append(body, g.text())
 		}
-		ts["base0"] = &Template{Name: "base0", Body: body}
+		ts[g.Prefix+"base0"] = &Template{Name: g.Prefix + "base0", Body: body}
 	}
-	parent := "base0"
+	parent := g.Prefix + "base0"
 	for lv := 1; lv < levels; lv++ {
-		name := "base" + strconv.Itoa(lv)
+		name := g.Prefix + "base" + strconv.Itoa(lv)
 		ts[name] = &Template{Name: name, Body: g.childBody(parent, aux)}
 		parent = name
 	}
@@ -682,8 +684,8 @@ func (g *ProgGen) Program() (map[string]*Template, string) {
 		}
 		mainBody = append(mainBody, g.Nodes(g.MaxDepth, 3+r.Intn(6), aux, false)...)
 	}
-	ts["main"] = &Template{Name: "main", Body: mainBody}
-	return ts, "main"
+	ts[g.Prefix+"main"] = &Template{Name: g.Prefix + "main", Body: mainBody}
+	return ts, g.Prefix + "main"
 }
 
 // namedBlock builds a block with a fixed name, keeping the bookkeeping that
@@ -717,7 +719,7 @@ func (g *ProgGen) childBody(parent string, aux []string) []Node {
 	}
 	body = append(body, &NExtends{Tpl: ext, ID: g.id("X")})
 	if r.Intn(3) == 0 {
-		u := &NUse{Tpl: &EStr{S: "blocks"}, ID: g.id("U")}
+		u := &NUse{Tpl: &EStr{S: g.Prefix + "blocks"}, ID: g.id("U")}
 		if r.Intn(2) == 0 {
 			u.Aliases = [][2]string{{"u0", "b2"}}
 		}
